@@ -100,12 +100,20 @@ type params struct {
 	polS2C   int
 	seed     uint64
 	shape    string // key of shapedSeeds, or ""
+	big      int    // > 0: both sides' scripts contain single large writes from bigMenu
 }
+
+// bigMenu: single application writes well beyond any internal buffer size
+// (io.Copy's 32 KiB, 64 KiB), deliberately not multiples of them or of a frame.
+var bigMenu = []int{32767, 32769, 40000, 65535, 65537, 98305, 100001, 131073, 200003}
 
 func (p params) String() string {
 	sh := ""
 	if p.shape != "" {
 		sh = " table=" + p.shape
+	}
+	if p.big > 0 {
+		sh += fmt.Sprintf(" big=%d", p.big)
 	}
 	return fmt.Sprintf("iat=%d biased=%v scenario=%s c2s=%s s2c=%s seed=%x%s", p.iat, p.biased, scenarioNames[p.scenario], policies[p.polC2S].name, policies[p.polS2C].name, p.seed, sh)
 }
@@ -187,6 +195,13 @@ func runConn(c *mon.Case, r *mon.Run, dir string, p params) {
 				}
 			}
 		}
+	}
+	if p.big > 0 {
+		b := bigMenu[(p.big-1)%len(bigMenu)]
+		b2 := bigMenu[(p.big+3)%len(bigMenu)]
+		cScript, sScript = []int{rng.IntN(200), b, 1 + rng.IntN(3000), b2, 17}, []int{b, 1 + rng.IntN(200), b2, 3000, 1}
+		nW = 5
+		r.Count("big_write_connections", 1)
 	}
 	gaps := func() []time.Duration {
 		g := make([]time.Duration, nW)
@@ -502,7 +517,7 @@ func interleaving(wu []memwire.WEvent, ru []memwire.REvent, wd []memwire.WEvent,
 func TestCheck(t *testing.T) {
 	r := mon.Start(t, "C01")
 	defer r.Finish()
-	r.Note("rule", "grid of (IAT mode 0/1/2) x (biased/uniform tables) x (4 scenarios incl. server payload coalesced with the handshake response) x reader chunk policies on both wire directions (all-available, 1, 2, 7, 21, 45, 1447, 1448, 1449, PRNG<=64, PRNG<=3000, 4 KiB back-pressure window, all-but-the-last-byte of whatever is available); plus searched single-valued tables ({22}, {210}, {1365}) with write sizes whose burst gets no padding, so that the last data frame is the last thing in flight; per connection a fresh bridge identity/DRBG seed and PRNG write-size scripts from {0,1,2,1426..1428,2853..2855,4096,8192,23168,65536,PRNG} with virtual pauses; every connection has 4 concurrent goroutines under the race detector. A case is non-trivial when the handshake completed and payload flowed; distinct = distinct (mode,bias,scenario,policies,seed).")
+	r.Note("rule", "grid of (IAT mode 0/1/2) x (biased/uniform tables) x (4 scenarios incl. server payload coalesced with the handshake response) x reader chunk policies on both wire directions (all-available, 1, 2, 7, 21, 45, 1447, 1448, 1449, PRNG<=64, PRNG<=3000, 4 KiB back-pressure window, all-but-the-last-byte of whatever is available); plus searched single-valued tables ({22}, {210}, {1365}) with write sizes whose burst gets no padding, so that the last data frame is the last thing in flight; per connection a fresh bridge identity/DRBG seed and PRNG write-size scripts from {0,1,2,1426..1428,2853..2855,4096,8192,23168,65536,PRNG} with virtual pauses, plus a family of single large writes (32767..200003 bytes, not multiples of 32 KiB/64 KiB) in every IAT mode; every connection has 4 concurrent goroutines under the race detector. A case is non-trivial when the handshake completed and payload flowed; distinct = distinct (mode,bias,scenario,policies,seed).")
 	dir := o4.StateDir("c01")
 	nPer := r.Pick(3, 30) // connections per grid cell
 	idx := 0
@@ -539,6 +554,33 @@ func TestCheck(t *testing.T) {
 				}
 			}
 		}
+	}
+
+	// single large application writes (not multiples of 32 KiB / 64 KiB / a frame)
+	for iat := 0; iat < 3; iat++ {
+		iat := iat
+		r.Case(fmt.Sprintf("big-writes/iat%d", iat), func(c *mon.Case) {
+			for bi := range bigMenu {
+				for vi, v := range [][3]int{{scClientFirst, 0, 0}, {scBothAtOnce, 10, 11}, {scLockstep, 11, 10}} {
+					if !r.Thorough() && (bi+vi+iat)%3 != 0 {
+						continue
+					}
+					p := params{iat: iat, biased: bi%2 == 0, scenario: v[0], polC2S: v[1], polS2C: v[2], seed: r.Sub("big", iat, bi, vi), big: bi + 1}
+					func() {
+						defer func() {
+							if e := recover(); e != nil {
+								sig := "panic-in-case"
+								if strings.HasPrefix(fmt.Sprint(e), "deadlock:") {
+									sig = "wedge/goroutines-still-blocked-after-close"
+								}
+								c.Violation(sig, fmt.Sprintf("%v; %s", e, p), p.String())
+							}
+						}()
+						synctest.Test(c.T, func(t *testing.T) { runConn(c, r, dir, p) })
+					}()
+				}
+			}
+		})
 	}
 
 	// bursts that end exactly at the end of their last data frame (no padding
